@@ -8,6 +8,7 @@ import (
 	"errors"
 	"fmt"
 	"github.com/creachadair/jrpc2/jhttp"
+	"net/http"
 	"net/http/httptest"
 	"testing"
 	"testing/synctest"
@@ -169,6 +170,19 @@ type Case struct {
 	// "batchany" rsp.UnmarshalResult(&any), "marshal" json.Marshal(rsp) (what a
 	// proxy such as the HTTP bridge forwards).
 	Via string `json:"via,omitempty"`
+	// Bridge: the caller is a Client on a jhttp.Channel, the handler sits behind a
+	// jhttp.Bridge (the HTTP round trip happens in-process); batches then begin
+	// with a notification.
+	Bridge bool `json:"bridge,omitempty"`
+}
+
+// inproc is an HTTP client that hands each request to a handler directly.
+type inproc struct{ h http.Handler }
+
+func (p inproc) Do(req *http.Request) (*http.Response, error) {
+	rec := httptest.NewRecorder()
+	p.h.ServeHTTP(rec, req)
+	return rec.Result(), nil
 }
 
 func jsonEqual(a, b []byte) bool { return refjson.Equal(a, b) }
@@ -241,7 +255,18 @@ func run(t *testing.T, c Case) (v engine.Verdict) {
 					return produce(ctx, req)
 				}
 			}
-			loc := server.NewLocal(handler.Map{"ok": func(ctx context.Context, req *jrpc2.Request) (any, error) { return "fine", nil }, "m": m}, lopts)
+			mux := handler.Map{"ok": func(ctx context.Context, req *jrpc2.Request) (any, error) { return "fine", nil }, "m": m,
+				"note": func(ctx context.Context, req *jrpc2.Request) (any, error) { return nil, nil }}
+			loc := server.NewLocal(mux, lopts)
+			cli := loc.Client
+			specs := []jrpc2.Spec{{Method: "ok"}, {Method: "m"}}
+			if c.Bridge {
+				b := jhttp.NewBridge(mux, nil)
+				defer b.Close()
+				cli = jrpc2.NewClient(jhttp.NewChannel("http://bridge.invalid/", &jhttp.ChannelOptions{Client: inproc{b}}), nil)
+				defer cli.Close()
+				specs = append([]jrpc2.Spec{{Method: "note", Notify: true}}, specs...)
+			}
 			if c.Via == "getter" {
 				// the same handler behind the HTTP GET entry point: the error body is
 				// the error object
@@ -263,7 +288,7 @@ func run(t *testing.T, c Case) (v engine.Verdict) {
 					cerr = &jrpc2.Error{Code: jrpc2.Code(*eo.Code), Message: eo.Message, Data: eo.Data}
 				}
 			} else if c.Via != "" {
-				rsps, berr := loc.Client.Batch(context.Background(), []jrpc2.Spec{{Method: "ok"}, {Method: "m"}})
+				rsps, berr := cli.Batch(context.Background(), specs)
 				switch {
 				case berr != nil:
 					cerr = fmt.Errorf("Batch failed: %w", berr)
@@ -312,20 +337,20 @@ func run(t *testing.T, c Case) (v engine.Verdict) {
 				}
 			} else if c.UseCallResult {
 				var out any
-				cerr = loc.Client.CallResult(context.Background(), "m", nil, &out)
+				cerr = cli.CallResult(context.Background(), "m", nil, &out)
 				if cerr == nil {
 					wire, _ = json.Marshal(out)
 				}
 			} else {
-				rsp, cerr = loc.Client.Call(context.Background(), "m", nil)
+				rsp, cerr = cli.Call(context.Background(), "m", nil)
 			}
 			if rsp != nil {
 				wire, _ = json.Marshal(rsp)
 			}
 			// The response must have been a well-formed one: the connection is still usable.
 			var s string
-			if err := loc.Client.CallResult(context.Background(), "ok", nil, &s); err != nil || s != "fine" {
-				after = fmt.Sprintf("a following call failed: %q, %v (client stopped: %v)", s, err, loc.Client.IsStopped())
+			if err := cli.CallResult(context.Background(), "ok", nil, &s); err != nil || s != "fine" {
+				after = fmt.Sprintf("a following call failed: %q, %v (client stopped: %v)", s, err, cli.IsStopped())
 			}
 			loc.Close()
 		})
@@ -355,6 +380,9 @@ func run(t *testing.T, c Case) (v engine.Verdict) {
 		return engine.Failf("C14/errorcode-precedence", "ErrorCode(%v) = %d, the documented rules give %d (spec %+v)", herr, got, want, *c.Spec)
 	}
 	labels := []string{"kind:" + c.Spec.Kind}
+	if c.Bridge {
+		labels = append(labels, "through-bridge")
+	}
 	switch {
 	case cerr == nil:
 		return engine.Failf("C14/error-lost", "handler returned %v, the client got success", herr)
@@ -465,6 +493,7 @@ func genCase(t *rapid.T) Case {
 	}
 	c.UseCallResult = rapid.IntRange(0, 3).Draw(t, "callresult") == 0
 	c.Via = rapid.SampledFrom([]string{"", "", "", "batch", "batchraw", "batchany", "marshal", "getter"}).Draw(t, "via")
+	c.Bridge = c.Via != "getter" && !c.ViaCallback && rapid.IntRange(0, 3).Draw(t, "bridge") == 0
 	if c.Via == "getter" && (c.ViaCallback || c.CancelFirst) {
 		c.Via = "" // (a Getter has no push side, and its server is not reachable for CancelRequest)
 	}
@@ -545,7 +574,7 @@ func genLaw(t *rapid.T) Law {
 
 var parts = []engine.AnyPart{
 	engine.Part[Case]{Name: "transport", Run: run, Gen: genCase,
-		Rule: "error values built from *Error{code,message,data}, Errorf, Code.Err, custom ErrCoder types with value and pointer receivers, an ErrCoder that wraps another error, context.Canceled / DeadlineExceeded bare and wrapped 1-3 levels with %w, errors.Join mixtures, plain errors (all named codes, boundaries, arbitrary int32 codes) and unmarshalable results (chan, func, NaN, cyclic pointer, invalid RawMessage), each returned by a handler of a real Server and observed by a real Client.Call over channel.Direct inside a bubble; oracle = an independent re-implementation of the documented classification, itself compared with ErrorCode on every value; non-trivial = wrapped/joined, or a code that is not a named constant, or carrying data; distinct = the case"},
+		Rule: "error values built from *Error{code,message,data}, Errorf, Code.Err, custom ErrCoder types with value and pointer receivers, an ErrCoder that wraps another error, context.Canceled / DeadlineExceeded bare and wrapped 1-3 levels with %w, errors.Join mixtures, plain errors (all named codes, boundaries, arbitrary int32 codes) and unmarshalable results (chan, func, NaN, cyclic pointer, invalid RawMessage), each returned by a handler of a real Server and observed by a real Client (Call, CallResult, Batch and the *Response accessors, an HTTP GET through a Getter, and - one case in four - a Client on a jhttp.Channel whose POSTs reach a jhttp.Bridge in-process, batches then led by a notification) inside a bubble; oracle = an independent re-implementation of the documented classification, itself compared with ErrorCode on every value; non-trivial = wrapped/joined, or a code that is not a named constant, or carrying data; distinct = the case"},
 	engine.Part[Law]{Name: "laws", Run: runLaw, Gen: genLaw,
 		Rule: "ErrorCode(c.Err()) == c for arbitrary int32 codes (NoError.Err() == nil); Error.WithData never modifies its receiver, returns the receiver for nil/unmarshalable values and otherwise a new value with the same code/message and data = json.Marshal(v); non-trivial = non-named code or receiver carrying data"},
 }
